@@ -102,7 +102,7 @@ class RefMachine:
                 raise _Err("Bind")
             last["du"][m - 1] += 1
             cl = w["cls"][o - 1]
-            for d in meth["deps"][cl - 1]:
+            for d in sp["deps"][cl - 1]:
                 self._dep(o, d, last)
             kind = sp["k"][cl - 1]
             if kind == "raise":
@@ -305,6 +305,8 @@ def undecorated(attr):
     if u is None and getattr(f, "__closure__", None):
         fns = [c.cell_contents for c in f.__closure__ if inspect.isfunction(c.cell_contents)]
         u = fns[0] if len(fns) == 1 else None
+    if u is None and inspect.isfunction(f) and not f.__code__.co_filename.endswith("funcutils.py"):
+        u = f                       # the decorator handed the function back undecorated
     return u
 
 
@@ -382,7 +384,7 @@ class Atoms:
 
 
 class _Node:
-    __slots__ = ("kind", "idx", "args", "kwargs", "children", "ran")
+    __slots__ = ("kind", "idx", "args", "kwargs", "children", "ran", "s")
 
     def __init__(self, kind, idx, args, kwargs):
         self.kind, self.idx, self.args, self.kwargs, self.children, self.ran = kind, idx, args, kwargs, [], False
@@ -403,6 +405,7 @@ class Binding:
         self.atoms = Atoms()
         self.twins, self._ref = {}, {}
         self.deps_unknown = False
+        self.sig_override = None
         self._build()
 
     # ---- construction -------------------------------------------------------------------
@@ -443,11 +446,19 @@ class Binding:
         for i, mc in enumerate(self.mcfg):
             for args, kwl, top in mc["sps"]:
                 self._spelling(i + 1, tuple(args), list(kwl), top)
-        # nested decorated calls of every body, per class (probe)
-        self.mdeps = [[[] for _ in range(C)] for _ in self.mcfg]
+        # nested decorated calls of every body, per class (probe); for methods per spelling
         self.pdeps = [[[] for _ in range(C)] for _ in self.pcfg]
-        for c in range(1, C + 1):
-            self._learn_deps(c)
+        self._probe_state = {}
+        for _pass in range(3):
+            n_sp = sum(len(x) for x in self.sps)
+            for c in range(1, C + 1):
+                self._learn_deps(c)
+            if sum(len(x) for x in self.sps) == n_sp:
+                break
+        for i in range(len(self.mcfg)):
+            for sp in self.sps[i]:
+                sp["deps"] = [sp["_deps"].get(c, []) for c in range(1, C + 1)]
+                del sp["_deps"]
         # result kinds per spelling / property and class (oracle: the undecorated function on a twin object)
         first = {c: self.cls.index(c) + 1 for c in range(1, C + 1)}
         for i in range(len(self.mcfg)):
@@ -466,7 +477,7 @@ class Binding:
         self.world = {
             "NO": self.NO, "N0": self.N0, "L": self.L, "cls": self.cls,
             "atoms": [{"ec": e, "h": h} for e, h in zip(self.atoms.ec, self.atoms.h)],
-            "meths": [{"params": self.params[i], "sps": self.sps[i], "deps": self.mdeps[i]} for i in range(len(self.mcfg))],
+            "meths": [{"params": self.params[i], "sps": self.sps[i]} for i in range(len(self.mcfg))],
             "props": [{"k": self.pk[i], "deps": self.pdeps[i], "top": self.pcfg[i]["top"]} for i in range(len(self.pcfg))],
             "trace": [],
         }
@@ -481,7 +492,7 @@ class Binding:
             if sp["pos"] == pos and sp["kw"] == kw:
                 sp["top"] = max(sp["top"], top)
                 return s + 1
-        self.sps[m - 1].append({"pos": pos, "kw": kw, "top": top, "k": None})
+        self.sps[m - 1].append({"pos": pos, "kw": kw, "top": top, "k": None, "_deps": {}})
         self.csp[m - 1].append((tuple(self.atoms.labels[a - 1] for a in pos),
                                 [(n, self.atoms.labels[e["a"] - 1]) for (n, _), e in zip(kwl, kw)]))
         return len(self.sps[m - 1])
@@ -530,7 +541,8 @@ class Binding:
     def _learn_deps(self, c):
         o = self.cls.index(c) + 1
         klass = self.classes[c - 1]
-        stack, first = [], {}
+        stack = []
+        first, tried = self._probe_state.setdefault(c, ({}, set()))
         counter = BodyCounter(self.codes)
 
         def rec(kind, idx, args, kwargs):
@@ -538,47 +550,48 @@ class Binding:
                 node = idx
                 node.ran = counter.n.get((node.kind, node.idx), 0) > node.ran
                 stack.pop()
-                if node.ran and (node.kind, node.idx) not in first:
-                    first[(node.kind, node.idx)] = node
+                if node.ran and (node.kind, node.idx, node.s) not in first:
+                    first[(node.kind, node.idx, node.s)] = node
                 return None
             node = _Node(kind, idx, args, kwargs)
+            node.s = self._spelling(idx, tuple(args), list(kwargs.items()), 0) if kind == "m" else 0
             node.ran = counter.n.get((kind, idx), 0)       # body count at entry
             if stack:
                 stack[-1].children.append(node)
             stack.append(node)
             return node
         probe = self._probe_class(klass, rec)
-        roots = [("p", i + 1, None) for i in range(len(self.pcfg))]
-        for i in range(len(self.mcfg)):
-            roots += [("m", i + 1, s) for s in range(len(self.csp[i]))]
-        for kind, idx, s in roots:
-            if (kind, idx) in first:
-                continue
-            obj = self.make(o)
-            try:
-                obj.__class__ = probe
-            except TypeError:
-                self.deps_unknown = True
-                return
-            del stack[:]
-            try:
-                if kind == "p":
-                    counter.run(lambda: getattr(obj, self.pcfg[idx - 1]["name"]))
-                else:
-                    args, kwl = self.csp[idx - 1][s]
-                    counter.run(lambda: getattr(obj, self.mcfg[idx - 1]["name"])(*args, **dict(kwl)))
-            except Exception:
-                pass
-        for (kind, idx), node in first.items():
-            deps = []
-            for ch in node.children:
-                if ch.kind == "m":
-                    s = self._spelling(ch.idx, tuple(ch.args), list(ch.kwargs.items()), 0)
-                    deps.append({"t": "call", "m": ch.idx, "s": s})
-                else:
-                    deps.append({"t": "read", "m": ch.idx, "s": 0})
+        for _round in range(4):
+            roots = [("p", i + 1, 0) for i in range(len(self.pcfg))]
+            for i in range(len(self.mcfg)):
+                roots += [("m", i + 1, s + 1) for s in range(len(self.csp[i]))]
+            roots = [r for r in roots if r not in first and r not in tried]
+            if not roots:
+                break
+            for kind, idx, s in roots:
+                tried.add((kind, idx, s))
+                if (kind, idx, s) in first:
+                    continue
+                obj = self.make(o)
+                try:
+                    obj.__class__ = probe
+                except TypeError:
+                    self.deps_unknown = True
+                    return
+                del stack[:]
+                try:
+                    if kind == "p":
+                        counter.run(lambda: getattr(obj, self.pcfg[idx - 1]["name"]))
+                    else:
+                        args, kwl = self.csp[idx - 1][s - 1]
+                        counter.run(lambda: getattr(obj, self.mcfg[idx - 1]["name"])(*args, **dict(kwl)))
+                except Exception:
+                    pass
+        for (kind, idx, s), node in first.items():
+            deps = [{"t": "call", "m": ch.idx, "s": ch.s} if ch.kind == "m" else {"t": "read", "m": ch.idx, "s": 0}
+                    for ch in node.children]
             if kind == "m":
-                self.mdeps[idx - 1][c - 1] = deps
+                self.sps[idx - 1][s - 1]["_deps"][c] = deps
             else:
                 self.pdeps[idx - 1][c - 1] = deps
 
@@ -833,7 +846,10 @@ def reach(B, o, t, i):
         if k in seen:
             continue
         seen.add(k)
-        deps = B.mdeps[k[1] - 1][c - 1] if k[0] == "m" else B.pdeps[k[1] - 1][c - 1]
+        if k[0] == "m":
+            deps = [d for sp in B.sps[k[1] - 1] for d in sp["deps"][c - 1]]
+        else:
+            deps = B.pdeps[k[1] - 1][c - 1]
         for d in deps:
             todo.append(("m" if d["t"] == "call" else "p", d["m"]))
     return seen
@@ -844,11 +860,21 @@ def same_up_to_twin(B, x, y):
     return x["k"] == y["k"] and x["o"] == y["o"] and x["f"] == y["f"] and ec(x["b"]) == ec(y["b"])
 
 
-def judge(B, exp, exp_info, exp_pset, obs, ex=None, exp_keys=None):
+def judge(B, exp, exp_info, exp_pset, obs, ex=None, exp_keys=None, pre=None):
     """Compare the machine's expectation with the observation of the real code.
 
     returns [(level, clause, what)], level 'viol' (a clause of the statement) or 'drift' (implementation shaped).
+    pre = (expected info, expected pset, observed info, observed pset) BEFORE the operation: an entry on which the code
+    had already left the machine before this operation is not attributed to it (that step has its own record).
     """
+    def stale(kind, oo, j):
+        if pre is None:
+            return False
+        e, g = (pre[0], pre[2]) if kind == "m" else (pre[1], pre[3])
+        try:
+            return list(e[oo - 1][j]) != list(g[oo - 1][j]) if kind == "m" else e[oo - 1][j] != g[oo - 1][j]
+        except (IndexError, TypeError):
+            return False
     out = []
     t, o, i, s = exp["t"], exp["o"], exp["m"], exp["s"]
     V = lambda clause, what: out.append(("viol", clause, what))
@@ -931,7 +957,7 @@ def judge(B, exp, exp_info, exp_pset, obs, ex=None, exp_keys=None):
             if misses != n or hits < misses or (init == 0 and (hits or misses or n)):
                 V("counters", f"obj{oo}.{name}: inconsistent bookkeeping hits={hits} misses={misses} entries={n}")
                 continue
-            if list(e) == list(g):
+            if list(e) == list(g) or stale("m", oo, j):
                 continue
             if oo != o or ("m", j + 1) not in touched:
                 V("isolation", f"{B.describe(exp)} changed the cache of obj{oo}.{name}: [init,hits,misses,entries] "
@@ -947,7 +973,7 @@ def judge(B, exp, exp_info, exp_pset, obs, ex=None, exp_keys=None):
         D("objects", "number of objects differs")
     for oo, (row_e, row_o) in enumerate(zip(exp_pset, obs["pset"]), 1):
         for j, (e, g) in enumerate(zip(row_e, row_o)):
-            if e == g:
+            if e == g or stale("p", oo, j):
                 continue
             name = B.pcfg[j]["name"]
             if oo != o or ("p", j + 1) not in touched:
@@ -985,7 +1011,7 @@ def report(ctx, B, fails, ops, focus, exp, obs):
     drifts = [f for f in fails if f[0] == "drift"]
     if viols:
         _, clause, what = viols[0]
-        sig = f"X01:{B.site(exp['t'], exp['m'])}:{clause}:{B.shape(exp)}"
+        sig = B.sig_override or f"X01:{B.site(exp['t'], exp['m'])}:{clause}:{B.shape(exp)}"
         script = [B.describe(op) for op in ops[:focus + 1]]
         more = "; ".join(f"[{c}] {w}" for _, c, w in viols[1:4])
         case = {"desc": B.desc, "ops": [_op4(op) for op in ops[:focus + 1]], "focus": focus, "script": script,
@@ -996,6 +1022,8 @@ def report(ctx, B, fails, ops, focus, exp, obs):
     if drifts:
         _, clause, what = drifts[0]
         ctx.count("drift:" + clause)
+        if B.sig_override:
+            return True
         ctx.drift(f"{B.site(exp['t'], exp['m'])}:{clause}", {"op": B.describe(ops[focus]), "what": what,
                                                              "script": [B.describe(op) for op in ops[:focus + 1]][-6:]})
     return True
@@ -1061,11 +1089,16 @@ def run_mc(ctx, bindings, what, workers=4, mutate=None, xevery=1):
             xcheck(w, ops, exp, exp_info, exp_pset, exp_keys)
             ctx.count("oracle_crosschecks")
         ex = Executor(B, mutate)
+        rm = RefMachine(w)
         for op in ops[:-1]:
             ex.run(op)
+            rm.op(op)
+        pre = (rm.info(), rm.pset(), ex.info(), ex.pset())
+        if pre[0] != pre[2] or pre[1] != pre[3]:
+            ctx.count("prefix_diverged")
         obs = ex.run(ops[-1], hint=exp["v"])
         ctx.evaluations += ex.n_ops
-        fails = judge(B, exp, exp_info, exp_pset, obs, ex, exp_keys)
+        fails = judge(B, exp, exp_info, exp_pset, obs, ex, exp_keys, pre)
         if report(ctx, B, fails, ops, len(ops) - 1, exp, obs):
             ctx.validated += 1
             n_ok += 1
@@ -1130,6 +1163,10 @@ def run_traces(ctx, items, what, workers=2, mutate=None, drop=None):
             ok = report(ctx, B, fails, ops, l - 1, exp, obs)
             good = good and ok
             ctx.count("events_rejected")
+            if ok and all(f[1] in ("layout", "copy", "error-kind", "store-keys") for f in fails):
+                continue                                   # nothing that changes the state of the caches
+            if ok:
+                ctx.count("traces_cut_after_drift")
             break                                          # the machine and the code have diverged
         if good:
             accepted += 1
@@ -1273,8 +1310,13 @@ def toy_binding(cfg):
     B = Binding({"kind": "toy", "name": cfg["name"], "cfg": cfg}, classes, lambda o: classes[cls[o - 1] - 1](o),
                 meths, props, cls, cfg["N0"], cfg["L"], True, "toy:")
     for m, mc in enumerate(cfg["meths"]):
-        if [len(x) for x in B.mdeps[m]] != [len(mc["deps"])] * len(classes):
-            raise TLCFailure(f"X01: probe of toy method {mc['name']} found {B.mdeps[m]} but it performs {mc['deps']}")
+        for s, sp in enumerate(B.sps[m]):
+            runs = py_bind(B.params[m], sp) is not None and all(B.atoms.h[a - 1] for a in sp["pos"] + [e["a"] for e in sp["kw"]])
+            if runs and any(len(x) > len(mc["deps"]) for x in sp["deps"]):
+                raise TLCFailure(f"X01: probe of toy method {mc['name']} found {sp['deps']} but it performs {mc['deps']}")
+    if cfg.get("collision"):
+        B.sig_override = f"X01:funcutils:attr-name-collision:{cfg['collision']}"
+        return B
     for p, pc in enumerate(cfg["props"]):
         if [len(x) for x in B.pdeps[p]] != [len(pc["deps"])] * len(classes):
             raise TLCFailure(f"X01: probe of toy property {pc['name']} found {B.pdeps[p]} but it performs {pc['deps']}")
@@ -1344,17 +1386,16 @@ def toy_templates(tier):
 
 
 def toy_name_collisions():
-    """function names whose derived attribute names coincide: '_cache_' + 'info_foo' == '_cache_info_' + 'foo',
-    '_cache_' + 'd_foo' == '_cached_' + 'foo', and a cached property foo next to ANY attribute called _cached_foo
-    (msdm's own naming pattern for cached methods: _cached_next_state_dist, _cached_actions)."""
+    """function names whose derived attribute names coincide: '_cache_' + 'info_foo' == '_cache_info_' + 'foo', and a
+    cached property foo next to ANY attribute called _cached_foo (msdm's own naming pattern for cached methods:
+    _cached_next_state_dist, _cached_actions)."""
     two = [_sp([A1]), _sp([A2])]
-    return [{"name": "names-foo-info_foo", "family": "int", "classes": "flat", "NO": 1, "N0": 1, "L": 3, "atoms": _atoms(),
+    return [{"name": "names-foo-info_foo", "collision": "method_cache(foo)+method_cache(info_foo)", "family": "int",
+             "classes": "flat", "NO": 1, "N0": 1, "L": 3, "atoms": _atoms(),
              "meths": [{"name": "foo", "params": [0], "sps": two, "deps": []},
                        {"name": "info_foo", "params": [0], "sps": two, "deps": []}], "props": []},
-            {"name": "names-foo-d_foo", "family": "int", "classes": "flat", "NO": 1, "N0": 1, "L": 3, "atoms": _atoms(),
-             "meths": [{"name": "d_foo", "params": [0], "sps": two, "deps": []}],
-             "props": [{"name": "foo", "kind": "val", "deps": [], "top": 1}]},
-            {"name": "names-foo-_cached_foo", "family": "int", "classes": "flat", "NO": 1, "N0": 1, "L": 2, "atoms": _atoms(),
+            {"name": "names-foo-_cached_foo", "collision": "cached_property(foo)+attribute(_cached_foo)", "family": "int",
+             "classes": "flat", "NO": 1, "N0": 1, "L": 2, "atoms": _atoms(),
              "meths": [{"name": "_cached_foo", "params": [0], "sps": two, "deps": []}],
              "props": [{"name": "foo", "kind": "val", "deps": [], "top": 1}]}]
 
@@ -1422,19 +1463,48 @@ def _is_funcutils_wrapper(f):
     return code is not None and code.co_filename.endswith("funcutils.py") and undecorated(f) is not None
 
 
+# what the statement names as cached (msdm at the time the check was written); these stay in the worlds even if a
+# decorator is dropped, so that "computed once" is then judged against the plain function / property
+REQUIRED = {
+    "MarkovDecisionProcess": (["reachable_states"], []),
+    "TabularMarkovDecisionProcess": (["_cached_actions", "_cached_next_state_dist"],
+                                     ["_unable_to_reach_absorbing", "absorbing_state_vec", "action_list", "action_matrix",
+                                      "dead_end_state_vec", "initial_state_vec", "reachable_state_vec", "reward_matrix",
+                                      "reward_table", "state_action_reward_matrix", "state_action_reward_table", "state_list",
+                                      "transition_matrix", "transition_table"]),
+    "TabularPOMDP": (["_cached_observation_dist"], ["observation_index", "observation_list", "observation_matrix"]),
+    "GridMDP": ([], ["feature_list", "feature_locations_dict", "grid", "location_feature_dict", "location_list"]),
+    "WindyGridWorld": (["next_state_reward_dist"], []),
+    "GridWorld": ([], ["feature_locations"]),
+    "TableIndex": ([], ["field_domains", "field_names", "fields", "shape"]),
+    "domaintuple": ([], ["_index"]),
+    "ImplicitDistribution": ([], ["_rng"]),
+}
+
+
 def discover(klass):
-    """names of the attributes of klass decorated with method_cache / cached_property."""
+    """names of the attributes of klass decorated with method_cache / cached_property (plus the REQUIRED ones)."""
     meths, props = [], []
+    for k in klass.__mro__:
+        rm, rp = REQUIRED.get(k.__name__, ([], []))
+        for name in rm:                   # (an override in a subclass is that subclass's business)
+            owner, attr = find_attr(klass, name)
+            if name not in meths and owner is k and inspect.isfunction(attr):
+                meths.append(name)
+        for name in rp:
+            owner, attr = find_attr(klass, name)
+            if name not in props and owner is k and isinstance(attr, property):
+                props.append(name)
     for name in sorted(dir(klass)):
         try:
             _, attr = find_attr(klass, name)
         except AttributeError:
             continue
-        if isinstance(attr, property) and _is_funcutils_wrapper(attr.fget):
+        if isinstance(attr, property) and _is_funcutils_wrapper(attr.fget) and name not in props:
             props.append(name)
-        elif inspect.isfunction(attr) and _is_funcutils_wrapper(attr):
+        elif inspect.isfunction(attr) and _is_funcutils_wrapper(attr) and name not in meths:
             meths.append(name)
-    return meths, props
+    return sorted(meths), sorted(props)
 
 
 def _mdp_labels(family):
